@@ -49,6 +49,11 @@ def check(run):
         if r["enc_class"] == "panic":
             findings.append(dict(cc.slim(r), kind="encode-panic", what="%s %s as %s: Encode panicked: %s" % (r["type_cql"], r["val_coq"][:200], r["rep"], r.get("err", "")[:200])))
             continue
+        if r["enc_class"] == "err" and (r["ver"] >= 3 or r["type_coq"].startswith("(TScalar")):
+            # every generated (value, representation) pair is one the codec documents as accepted and able to hold the value; the only
+            # legitimate refusals are those of the v2 collection format (NULL element, element / count above 65535)
+            findings.append(dict(cc.slim(r), kind="encode-refused", what="%s value %s (as %s, v%d): Encode refused an accepted representation of a representable value: %s" % (
+                r["type_cql"], r["val_coq"][:300], r["rep"], r["ver"], r.get("err", "")[:200])))
         if r["enc_class"] not in ("ok", "null"):
             continue
         evaluations += 1
@@ -59,19 +64,22 @@ def check(run):
         if not (r["same_class"] == "ok" and r["same_equal"]):
             findings.append(dict(cc.slim(r), kind="same-representation-differs",
                                  what="%s value %s (as %s, v%d): decoded into the same representation -> %s %s" % (r["type_cql"], r["val_coq"][:300], r["rep"], r["ver"], r["same_class"], r.get("same_coq", "")[:300] or r.get("err", "")[:200])))
+    # the same bytes into one more typed destination (maps keyed by interface{}, untyped containers, array / struct / pointer keys):
+    # ok or error - e.g. the refusal of a key that is not hashable - never a panic (the value is compared with the model below)
+    for r in cases:
+        if r.get("alt_class") == "panic":
+            findings.append(dict(cc.slim(r), kind="decode-panic", dest=r.get("alt_dest"), what="%s value %s (v%d) bytes %s decoded into %s: PANIC %s" % (
+                r["type_cql"], r["val_coq"][:200], r["ver"], r.get("enc_hex", "")[:200], r.get("alt_dest"), r.get("alt_err", "")[:160])))
+        elif r.get("alt_class"):
+            evaluations += 1
     for r in recs:
         if r["kind"] == "nan-key" and r["enc_class"] == "ok" and not r["rt_equal"]:
             findings.append(dict(cc.slim(r), kind="nan-map-key-value-lost",
                                  what="map<double,int> from Go map[float64]... {NaN: 5}: the value is encoded as NULL (%s): mapExtractor looks the key up with MapIndex, which never finds a NaN" % r.get("enc_hex", "")))
-    # destination reuse, judged without the model: a slice variable that already holds a value must end up holding exactly the decoded list
-    for r in recs:
-        if r["kind"] == "reuse" and r["gty"].startswith("(GSlice") and (r["type_cql"].startswith("list<") or r["type_cql"].startswith("set<")):
-            evaluations += 1
-            bad_reuse = (r["class"] != "ok") or (r["input"] == "value" and r.get("result_abs") != r["val_coq"]) or (r["input"] != "value" and not r.get("was_null"))
-            if bad_reuse:
-                findings.append({"kind": "destination-reuse", "type_cql": r["type_cql"], "rep": r["rep"], "ver": r["ver"], "prefilled": r["prefill_g"][:400], "input": r["input"],
-                                 "decoded_bytes": r.get("hex", ""), "expected": r["val_coq"][:400], "observed": r.get("result_abs", r["class"])[:400],
-                                 "what": "%s into a %s variable already holding %s: expected %s, got %s" % (r["type_cql"], r["rep"], r["prefill_g"][:120], r["val_coq"][:120], str(r.get("result_abs", r["class"]))[:120])})
+    # destination reuse, judged without the model: a variable that already holds a value must end up holding exactly the decoded value
+    rf, rn = cc.reuse_findings(recs)
+    findings += rf
+    evaluations += rn
     # ---- correspondence: the model decoder on the implementation's bytes = the implementation's decoded value; model round trip on the same value
     usable = [r for r in cases if cc.usable(r) and r["enc_class"] in ("ok", "null")]
     ccases = []
